@@ -224,12 +224,27 @@ def main(tier, seed):
                 continue
             rc, o, e = run([os.path.join(d, "e_" + b)], timeout=30)
             res["st"]["executed_cpp"] += 1
+            seen_lines = set()
+            if rc != 0:
+                # FromFFI / AsFFI of a valid variant must not abort: the driver prints one line per variant, the first missing one is the culprit
+                done = {tuple(l.split()[:2]) for l in o.splitlines() if len(l.split()) == 5}
+                missing = [(en.name, vn) for en in enums for vn, _ in en.variants if (en.name, vn) not in done]
+                bad(b, missing[0][0] if missing else "-", missing[0][1] if missing else "-",
+                    "C++ enum driver died (exit %s) converting a valid variant: %s" % (rc, (e or "")[-200:].replace("\n", " ")))
             for l in o.splitlines():
+                if len(l.split()) != 5:
+                    continue
                 a, vn, v1, v2, v3 = l.split()
                 res["n"] += 1
                 t = truth[(a, vn)]
+                seen_lines.add((a, vn))
                 if not (int(v1) == int(v2) == int(v3) == t):
                     bad(b, a, vn, "C++ %s::%s = %s, AsFFI = %s, FromFFI round trip = %s, rustc says %d" % (a, vn, v1, v2, v3, t))
+            if rc == 0:
+                for en in enums:
+                    for vn, _ in en.variants:
+                        if (en.name, vn) not in seen_lines:
+                            bad(b, en.name, vn, "the C++ enum driver printed nothing for this variant")
             if b == "nanobind":
                 txt = open(os.path.join(out, "vflib_ext.cpp")).read()
                 res["st"]["nanobind"] += 1
